@@ -88,6 +88,7 @@ class Scenario:
         self.twins = []                 # (class, look-alike class) pairs
         self.multi = False              # classes spread over several modules, equal __qualname__ in different modules
         self.pep563 = False             # modules start with `from __future__ import annotations` (string annotations)
+        self.mixin_override = None      # (module, class): every "DataClassDictMixin" of the sources is this format mixin
 
     def cls(self, name) -> Cls:
         for c in self.classes:
@@ -425,6 +426,12 @@ import sys as _sys, types as _types
 FUTURE = "from __future__ import annotations\n"
 
 
+def mixin_line(sc) -> str:
+    if not sc.mixin_override:
+        return ""
+    return f"from {sc.mixin_override[0]} import {sc.mixin_override[1]} as DataClassDictMixin\n"
+
+
 def cls_src(sc: Scenario, c: Cls, nm=None) -> str:
     bases = []
     if c.parent:
@@ -474,7 +481,7 @@ def wrapper_src(sc: Scenario, i: int, t) -> str:
 def scenario_src(sc: Scenario) -> str:
     # dataclass fields without default may not follow fields with default: aliases use field(metadata=..)
     # which has no default, so any order is fine.
-    s = (FUTURE if sc.pep563 else "") + HEADER
+    s = (FUTURE if sc.pep563 else "") + HEADER + mixin_line(sc)
     if sc.dialect is not None:
         if sc.dialect == "unset":
             s += "class Dl(Dialect):\n    no_copy_collections = (list,)\n" if sc.wide else "class Dl(Dialect):\n    namedtuple_as_dict = False\n"
@@ -491,7 +498,7 @@ def scenario_src(sc: Scenario) -> str:
         if not members:
             continue
         nm = {c.name: c.pyname for c in members}
-        lib = (FUTURE if sc.pep563 else "") + HEADER + "".join(cls_src(sc, c, nm) + "\n" for c in members)
+        lib = (FUTURE if sc.pep563 else "") + HEADER + mixin_line(sc) + "".join(cls_src(sc, c, nm) + "\n" for c in members)
         s += (f"_lib{home} = _types.ModuleType(__name__ + '_{home}'); _sys.modules[_lib{home}.__name__] = _lib{home}\n"
               f"exec(compile({lib!r}, _lib{home}.__name__, 'exec', dont_inherit=True), _lib{home}.__dict__)\n")
         for c in members:
